@@ -9,6 +9,22 @@ using namespace wc;
 #define VK_OPS 3
 #endif
 
+// packet identifiers in use = 65535 - free ones, read through the private-member access idiom (C08 release discipline)
+using svc_t = boost::mqtt5::detail::client_service<asio::ip::tcp::socket, std::monostate, boost::mqtt5::noop_logger>;
+template <typename Tag, typename Tag::type M> struct rob { friend typename Tag::type stolen(Tag) { return M; } };
+struct t_impl { typedef std::shared_ptr<svc_t> client_t::*type; friend type stolen(t_impl); };
+template struct rob<t_impl, &client_t::_impl>;
+struct t_alloc { typedef boost::mqtt5::detail::packet_id_allocator svc_t::*type; friend type stolen(t_alloc); };
+template struct rob<t_alloc, &svc_t::_pid_allocator>;
+template <auto M> struct rob2 { friend auto& free_ids(boost::mqtt5::detail::packet_id_allocator& a) { return a.*M; } };
+auto& free_ids(boost::mqtt5::detail::packet_id_allocator& a);
+template struct rob2<&boost::mqtt5::detail::packet_id_allocator::_free_ids>;
+static int ids_in_use(client_t& c) {
+  auto& v = free_ids((*(c.*stolen(t_impl{}))).*stolen(t_alloc{})); long free_n = 0;
+  for (size_t i = 0; i < v.size(); i++) free_n += (long)v[i].start - (long)v[i].end;
+  return (int)(65535 - free_n);
+}
+
 struct X {
   W* w = new W();
   int nops_started = 0; bool stopped = false; int stop_kind = -1; int disc_op = -1; int nreconn = 0; int restarted = 0; bool destroyed = false;
@@ -82,6 +98,11 @@ struct X {
       if (w->ops[i].done) vk_assert(!w->ops[i].inline_completion, "completion handler invoked from inside the initiating call");
     }
     vk_assert(w->run_done <= 1 + restarted, "async_run completed more than once");
+    if (w->cp) {
+      // an identifier is held exactly while its exchange is outstanding (QoS 1/2 publish, subscribe, unsubscribe)
+      int holding = 0; for (int i = 0; i < w->nops; i++) if (!w->ops[i].done && (w->ops[i].kind == 1 || w->ops[i].kind == 2 || w->ops[i].kind == 10 || w->ops[i].kind == 11)) holding++;
+      vk_assert(ids_in_use(w->c) == holding, "packet identifiers in use differ from the outstanding exchanges (an id leaked or was released early)");
+    }
     if (stopped) {
       // everything outstanding is completed, async_run and async_receive included, and nothing is left to run
       for (int i = 0; i < w->nops; i++) vk_assert(w->ops[i].done == 1, "an operation is still outstanding after cancel() / async_disconnect / destruction");
